@@ -1146,6 +1146,10 @@ where
             IOTask::Reset { done } => {
                 let result = this.log_store.reset().await;
                 *pending_max = 0; // disk wiped — pending page-cache watermark must be zeroed
+                // A write that was being fsynced while reset_internal() zeroed durable_index may
+                // have re-advanced it (fetch_max) afterwards. The disk is empty now: leaving the
+                // stale value would make the next persist skip everything at or below it.
+                this.durable_index.store(0, Ordering::Release);
                 let _ = done.send(result);
                 false
             }
